@@ -21,6 +21,7 @@ import (
 	"math/big"
 	"sort"
 	"strings"
+	"sync"
 	"sync/atomic"
 
 	"verif/vk"
@@ -54,6 +55,7 @@ type acctKind struct {
 	twinOnHit   bool // block path only when the mempool cache serves the hash (a miss would need a full UTXO store inside the app object; it is the cold path)
 
 	r0, s0, v0 *big.Int
+	badField   sync.Map // field class -> true: a single mutation of it keeps the original sender
 	baseWire   []byte
 	baseHash   common.Hash
 }
@@ -303,8 +305,13 @@ func (k *acctKind) evalSig(r *vk.Run, cb combo, sg sigAlt, hashMap bool, st *acc
 	}
 	same := bytes.Equal(wire, k.baseWire)
 	h := tx0.Hash()
-	if (h == k.baseHash) != same {
-		r.Violation("tx-hash-not-exact:"+k.devClass(cb, sg, ""), fmt.Sprintf("%s: transaction hash equal to the base hash=%v but bytes identical=%v (fields: %s; signature: %s)", k.name, h == k.baseHash, same, k.comboName(cb), k.sigName(sg)),
+	hashInexact := (h == k.baseHash) != same
+	if hashInexact {
+		cls := k.rootKind() + ":signature[" + k.sigComponents(sg) + "]"
+		if len(cb) > 0 {
+			cls = k.rootKind() + ":field=" + k.blameFields(cb)
+		}
+		r.Violation("tx-hash-not-exact:"+cls, fmt.Sprintf("%s: transaction hash equal to the base hash=%v but bytes identical=%v (fields: %s; signature: %s)", k.name, h == k.baseHash, same, k.comboName(cb), k.sigName(sg)),
 			k.replayOf(cb, sg, "", "", wire))
 	}
 	if hashMap {
@@ -384,10 +391,21 @@ func (k *acctKind) evalSig(r *vk.Run, cb combo, sg sigAlt, hashMap bool, st *acc
 			}
 			if cs == cacheCold {
 				coldBad = true
+				if len(cb) == 1 && from == addrA {
+					k.badField.Store(indexRe.ReplaceAllString(k.muts[cb[0]].field, "[]"), true)
+				}
 			} else if coldBad {
 				continue // same defect already reported for the cold object
 			} else if key != keyO2 {
-				key += ":only-with-cache=" + cacheName[cs]
+				// a cold object behaves correctly: the memoised / pre-filled sender is the cause
+				switch {
+				case cs == cacheTwin && hashInexact:
+					key = "stale-sender-cache:mempool-twin-served-for-changed-transaction:" + k.rootKind()
+				case ch.name != "c":
+					key = "stale-sender-cache:survives-other-chain-parameter:" + k.via
+				default:
+					key = "stale-sender-cache:" + cacheName[cs] + ":" + k.via
+				}
 				what += " (cache state " + cacheName[cs] + "; a cold object behaves correctly)"
 			}
 			r.Violation(key, what, k.replayOf(cb, sg, ch.name, cacheName[cs], wire))
@@ -395,14 +413,42 @@ func (k *acctKind) evalSig(r *vk.Run, cb combo, sg sigAlt, hashMap bool, st *acc
 	}
 }
 
-// devClass: canonical class of what deviates from the signed base (root-cause oriented, no values).
-func (k *acctKind) devClass(cb combo, sg sigAlt, chain string) string {
-	var d []string
-	if len(cb) > 0 {
-		d = append(d, k.name+":field="+k.comboFields(cb))
-	} else {
-		d = append(d, k.via)
+// rootKind: the transaction type without the base variant ("Transaction(creation)", "Transaction/unprotected"
+// and "Transaction" share their signFields / recover implementation).
+func (k *acctKind) rootKind() string {
+	n := k.name
+	if i := strings.IndexAny(n, "(/"); i >= 0 {
+		n = n[:i]
 	}
+	return n
+}
+
+// blameFields: the fields of the combination that are known to break the property on their own (single-mutation
+// cases run first); all fields of the combination if none is.
+func (k *acctKind) blameFields(cb combo) string {
+	var all, bad []string
+	for _, i := range cb {
+		f := indexRe.ReplaceAllString(k.muts[i].field, "[]")
+		all = append(all, f)
+		if _, ok := k.badField.Load(f); ok {
+			bad = append(bad, f)
+		}
+	}
+	if len(bad) > 0 {
+		all = bad
+	}
+	sort.Strings(all)
+	return strings.Join(all, "+")
+}
+
+// devClass: canonical class of what deviates from the signed base (root-cause oriented, no values). A changed
+// field names the type and the field; a pure signature / chain-parameter deviation names the recover
+// implementation and the deviating components.
+func (k *acctKind) devClass(cb combo, sg sigAlt, chain string) string {
+	if len(cb) > 0 {
+		return k.rootKind() + ":field=" + k.blameFields(cb)
+	}
+	d := []string{k.via}
 	if s := k.sigName(sg); s != "" {
 		d = append(d, "sig["+s+"]")
 	}
@@ -413,6 +459,21 @@ func (k *acctKind) devClass(cb combo, sg sigAlt, chain string) string {
 		d = append(d, "unprotected-base")
 	}
 	return strings.Join(d, ":")
+}
+
+// sigComponents: which of r, s, v deviate (names only).
+func (k *acctKind) sigComponents(sg sigAlt) string {
+	var d []string
+	if sg.r.name != "r0" {
+		d = append(d, "r")
+	}
+	if sg.s.name != "s0" {
+		d = append(d, "s")
+	}
+	if sg.v.name != "v0" {
+		d = append(d, "v")
+	}
+	return strings.Join(d, ",")
 }
 
 func (k *acctKind) replayOf(cb combo, sg sigAlt, chain, cache string, wire []byte) replay {
@@ -468,7 +529,14 @@ func (k *acctKind) run(r *vk.Run, quick bool) kindReport {
 	combos := k.combos(k.pairs)
 	var total acctStats
 	var done int64
-	vk.ParallelFor(len(combos), func(i int) {
+	// combos are ordered by size: sizes 0 and 1 run to completion before the pairs (blameFields)
+	nSmall := 0
+	for _, cb := range combos {
+		if len(cb) <= 1 {
+			nSmall++
+		}
+	}
+	work := func(i int) {
 		if r.Expired() {
 			return
 		}
@@ -488,7 +556,9 @@ func (k *acctKind) run(r *vk.Run, quick bool) kindReport {
 		}
 		total.add(&st)
 		atomic.AddInt64(&done, 1)
-	})
+	}
+	vk.ParallelFor(nSmall, work)
+	vk.ParallelFor(len(combos)-nSmall, func(i int) { work(nSmall + i) })
 	rep := kindReport{Kind: k.name, FieldMutations: len(k.muts), FieldCombos: len(combos), SigAlternatives: len(full), Cases: total.cases, AcceptedAsA: total.acceptedA,
 		AcceptedOtherSender: total.otherSender, Rejected: total.rejected, RejectedAtWire: total.rejectedWire, Complete: int(done) == len(combos)}
 	return rep
